@@ -3148,6 +3148,38 @@ impl<K, V, S> HashMap<K, V, S> {
         }
     }
 
+    /// `entry(key)` for a key known to be absent, without the `Entry` enum around the handle.
+    pub fn verif_vacant_entry(&mut self, key: K) -> VacantEntry<'_, K, V, S>
+    where
+        K: Hash,
+        S: BuildHasher,
+    {
+        let hash = make_insert_hash::<K, S>(&self.hash_builder, &key);
+        VacantEntry {
+            hash,
+            key,
+            table: self,
+        }
+    }
+
+    /// `entry(key)` for a key that may be present, without the `Entry` enum around the handle.
+    pub fn verif_occupied_entry(&mut self, key: K) -> Option<OccupiedEntry<'_, K, V, S>>
+    where
+        K: Eq + Hash,
+        S: BuildHasher,
+    {
+        let hash = make_insert_hash::<K, S>(&self.hash_builder, &key);
+        match self.table.find(hash, equivalent_key(&key)) {
+            Some(elem) => Some(OccupiedEntry {
+                hash,
+                key: Some(key),
+                elem,
+                table: self,
+            }),
+            None => None,
+        }
+    }
+
     /// Exposes the main table and, if present, the old table and its cached iterator.
     #[allow(clippy::type_complexity)]
     pub fn verif_parts(
